@@ -195,7 +195,8 @@ var confusable = []string{``, `null`, `""`, `[]`, `{}`, `0`, `false`, `true`, `1
 	`[[]]`, `[""]`, `[{}]`, `[null]`, `[0]`, `[false]`, `[[],[]]`, `["",""]`, `[[],""]`, `["",[]]`, `[[[]]]`, `[[""]]`, `[{},{}]`,
 	`{"":""}`, `{"a":[]}`, `{"a":""}`, `{"a":{}}`, `{"a":null}`, `{"a":1,"b":2}`, `{"a":2,"b":1}`, `{"a":"b"}`, `{"b":"a"}`, `-0`, `[-0]`, `[0,0]`, `[0,-0]`, `[1,2]`, `[2,1]`, `[1,1,2]`, `[1,2,2]`, `[[1,2],[2,1]]`, `[[2,1],[1,2]]`, `[[1,2]]`,
 	`"a\n"`, `"a "`, `" a"`, `"A"`, `"a\u0000"`, `{"a\n":1}`, `{"a":1}`,
-	`{"A":1}`, `{"a ":1}`, `{" a":1}`, `{"\u00e9":1}`, `{"e\u0301":1}`, `{"k":1}`, `{"K":1}`, `{"\u212a":1}`, `"\u00e9"`, `"e\u0301"`, `{"a":1,"A":1}`}
+	`{"A":1}`, `{"a ":1}`, `{" a":1}`, `{"\u00e9":1}`, `{"e\u0301":1}`, `{"k":1}`, `{"K":1}`, `{"\u212a":1}`, `"\u00e9"`, `"e\u0301"`, `{"a":1,"A":1}`,
+	`[[1,2],3]`, `[[1],2,3]`, `[[1],[2]]`, `[[1,[2]]]`, `[1,[2,3]]`, `{"a,b":1,"c":2}`, `{"a":1,"b,c":2}`, `{"a":{"b":1}}`, `{"a.b":1}`, `{"a/b":1}`}
 
 // midDiffPair returns two strings of n bytes that are equal except for one
 // byte in the middle (same length, same head, same tail).
@@ -275,6 +276,14 @@ func partialCollisions() [][2]string {
 		}
 	})
 	return partialPairs
+}
+
+// trickyPairs: document pairs whose difference is easy to lose for code that
+// compares through a printed or joined form of keys or values.
+var trickyPairs = [][2]string{
+	{`{"a,b":1,"c":2}`, `{"a":1,"b,c":2}`}, {`{"x,y":[1],"z":{}}`, `{"x":[1],"y,z":{}}`}, {`{"a b":1,"c":2}`, `{"a":1,"b c":2}`},
+	{`{"a":1,"b":2}`, `{"a":2,"b":1}`}, {`{"ab":1,"c":2}`, `{"a":1,"bc":2}`}, {`{"a":{"b":1}}`, `{"a.b":1}`}, {`{"a":["b"]}`, `{"a":"[\"b\"]"}`},
+	{`{"k":"1,2"}`, `{"k":[1,2]}`}, {`{"k":["a,b"]}`, `{"k":["a","b"]}`}, {`{"1":"a","2":"b"}`, `["a","b"]`}, {`{"0":"a"}`, `["a"]`},
 }
 
 // wrapText places a JSON text at the root, in an array or under a key.
